@@ -68,7 +68,7 @@ def analyse(facts, tier):
     for b, j, st in non.cfg.stmts():
         for x in walk(st['s']):
             ap = assign_parts(x)
-            if not (ap and strip(ap[0]).get('k') == 'DeclRefExpr' and short(strip(ap[0])['n']) == 'tone'):
+            if not (ap and strip(ap[0]).get('k') == 'DeclRefExpr' and not strip(ap[0]).get('parm')):
                 continue
             r = strip(ap[1])
             if r.get('k') == 'BinaryOperator' and r['op'] == '-' and mentions(r['l'], member_named('drumTone')) and const_of(r['r']) is not None:
